@@ -59,6 +59,8 @@ pub fn gen_conc_run(verif_seed: u64, j: u64) -> ConcRun {
                 qr.version = None;
             }
             let mut setters = if same_content { vec![] } else { gen::gen_rsetters(&mut rng, is_img, is_img, false) };
+            // (concurrent runs keep renderers small: no very-many-layer documents)
+            setters.truncate(12);
             let mut kind = kind;
             // a caller often exports the same thing again (to the same or another file) while the
             // others export something else: where "already done" shortcuts meet concurrency
